@@ -38,12 +38,31 @@ inline T *Reallocate(Alloc &alloc, T *p, SizeType oldCapa, SizeType newCapa, Siz
   return alloc.reallocate(p, oldCapa, newCapa, size);
 }
 
+/// Moves the elements of a buffer to a larger one. As std::vector does, elements whose move constructor may throw are
+/// copied instead (when they can be), so that the old buffer is still intact if the transfer fails.
+template <class T>
+struct RelocateByCopy
+    : public std::integral_constant<bool, !is_trivially_relocatable<T>::value &&
+                                              !std::is_nothrow_move_constructible<T>::value &&
+                                              std::is_copy_constructible<T>::value> {};
+
+template <class T, class SizeType, typename std::enable_if<!RelocateByCopy<T>::value, bool>::type = true>
+inline void RelocateToNewBuffer(T *src, SizeType n, T *dest) {
+  (void)amc::uninitialized_relocate_n(src, n, dest);
+}
+
+template <class T, class SizeType, typename std::enable_if<RelocateByCopy<T>::value, bool>::type = true>
+inline void RelocateToNewBuffer(T *src, SizeType n, T *dest) {
+  (void)amc::uninitialized_copy_n(src, n, dest);
+  amc::destroy_n(src, n);
+}
+
 template <class Alloc, class T, class SizeType,
           typename std::enable_if<!CanReallocate<Alloc>::value, bool>::type = true>
 inline T *Reallocate(Alloc &alloc, T *p, SizeType oldCapa, SizeType newCapa, SizeType size) {
   T *newPtr = alloc.allocate(newCapa);
   try {
-    (void)amc::uninitialized_relocate_n(p, size, newPtr);
+    RelocateToNewBuffer(p, size, newPtr);
   } catch (...) {
     alloc.deallocate(newPtr, newCapa);
     throw;
@@ -60,7 +79,7 @@ void SmallVectorBase<T, Alloc, SizeType>::grow(uintmax_t minSize, bool exact) {
     newCapa = SafeNextCapacity(oldCapa, minSize, exact);
     T *dynStorage = this->allocate(newCapa);
     try {
-      (void)amc::uninitialized_relocate_n(_storage.ptr(), _capa, dynStorage);
+      RelocateToNewBuffer(_storage.ptr(), _capa, dynStorage);
     } catch (...) {
       this->deallocate(dynStorage, newCapa);
       throw;
